@@ -6,6 +6,9 @@ mod rt;
 mod dev;
 mod common;
 mod c04;
+mod lockstep;
+mod c02;
+mod c17;
 
 use engine::{Env, Tier};
 use std::path::PathBuf;
@@ -88,6 +91,8 @@ fn main() {
         "dev-gen" => dev::gen_stats(&env, &rest),
         "dev-show" => dev::show(&env, &rest),
         "C04" => c04::run(&env),
+        "C02" => c02::run(&env),
+        "C17" => c17::run(&env),
         _ => usage(),
     };
     std::process::exit(code);
